@@ -21,7 +21,7 @@ FLAVOURS = {
     "asan": {"cflags": ["-O2", "-fsanitize=address,undefined", "-fno-sanitize-recover=undefined"], "lflags": ["-fsanitize=address,undefined"]},
     "tsan": {"cflags": ["-O1", "-fsanitize=thread"], "lflags": ["-fsanitize=thread"]},
 }
-WRAPS = ["__cxa_guard_acquire", "__cxa_guard_release", "__cxa_guard_abort", "pthread_mutex_lock", "fopen", "fseek", "fread", "feof", "fclose"]
+WRAPS = ["__cxa_guard_acquire", "__cxa_guard_release", "__cxa_guard_abort", "pthread_mutex_lock", "pthread_mutex_unlock", "fopen", "fseek", "fread", "feof", "fclose"]
 
 
 def _files(root, exts):
